@@ -564,3 +564,47 @@ def c13_join_none_is_identity(r):
 def c13_partial_eval_drops_offsets(r):
     """IndexRange.partial_eval_with_range re-analyses only self.base and drops self.lo / self.hi"""
     return r.get("property") == "C13" and r.get("function") == "partial_eval_contains"
+
+
+# ---------------------------------------------------------------------------
+# C03
+
+
+def _c03_name(r):
+    m = re.search(r"(?:read|assign|reduce) (\w+)", str(r.get("detail")))
+    return m.group(1) if m else None
+
+
+def c03_read_inside_extern_argument(r):
+    """the bounds checker does not look inside the arguments of extern calls"""
+    if r.get("property") != "C03" or r.get("kind") not in ("view_extent", "bounds"):
+        return False
+    if "read" not in str(r.get("detail")):
+        return False
+    nm = _c03_name(r)
+    src = r.get("src") or ""
+    for m in re.finditer(r"\b(relu|select|fmaxf|sin|sigmoid|sqrt|expf)\(", src):
+        # text of the call's argument list (balanced)
+        depth, k = 0, m.end() - 1
+        for k in range(m.end() - 1, len(src)):
+            depth += src[k] == "("
+            depth -= src[k] == ")"
+            if depth == 0:
+                break
+        if re.search(rf"\b{nm}\[", src[m.end() : k]):
+            return True
+    return False
+
+
+def c03_access_through_window_alias(r):
+    """accesses through a WindowStmt alias are not checked against the alias' extent"""
+    if r.get("property") != "C03" or r.get("kind") not in ("view_extent", "bounds"):
+        return False
+    nm = _c03_name(r)
+    src = r.get("src") or ""
+    return bool(nm and re.search(rf"^\s*{nm} = \w+\[", src, flags=re.M))
+
+
+def c03_window_interval_unchecked(r):
+    """the interval of a WindowStmt / window expression is not checked against its source buffer"""
+    return r.get("property") == "C03" and r.get("kind") == "window" and "not inside" in str(r.get("detail"))
